@@ -777,7 +777,7 @@ class ExecutionGraph(DAG, PickleInterface):
                     # Execute the restart script.
                     # If a restart script doesn't exist, re-run the command.
                     # If we're under the restart limit, attempt a restart.
-                    if record.can_restart:
+                    if record.can_restart and not self.is_canceled:
                         if record.mark_restart():
                             LOGGER.info(
                                 "Step '%s' timed out. Restarting (%s of %s).",
